@@ -211,8 +211,6 @@ class PyIndex:
     # ------------------------------------------------------------------ collection
     def _collect(self):
         for mod in self.modules.values():
-            for st in ast.walk(mod.tree):
-                pass
             self._collect_body(mod, mod.tree.body, prefix='', cls=None)
         # bases
         for ci in self.classes.values():
